@@ -154,7 +154,7 @@ func runC15(r *rt.Run) {
 	r.Bounds["longitudes"] = lons
 	r.Bounds["bearings"] = len(brgs)
 	r.Bounds["distances"] = dists
-	r.Rule = "full product of the listed alphabets: every ordered pair of locations (plus the exact antipode of every location) for distance; every location x bearing x distance for destination / distance back / initial bearing; haversine monotone along the sorted distance alphabet and metre round trip; normalisation on multiples and offsets of the circumference; semicircle round trip on a 2^16-point grid plus +-180, +-90; non-trivial = distinct locations / positive distance"
+	r.Rule = "full product of the listed alphabets: every ordered pair of locations (plus the exact antipode of every location) for distance; every location x bearing x distance for destination / distance back / initial bearing; pole approach: 9 start latitudes on both hemispheres x 5 longitudes x travel along (and within 1e-6..1e-3 degree of) the meridian ending from 10 m short of to 10 m beyond the pole in 17 steps; haversine monotone along the sorted distance alphabet and metre round trip; normalisation on multiples and offsets of the circumference; semicircle round trip on a 2^16-point grid plus +-180, +-90; non-trivial = distinct locations / positive distance"
 	r.Assume = []string{"sphere radius 6371e3 m (the library's constant)", "reference: unit vectors + atan2 (verif/mc/sphere); tolerances as stated in C15", "decided on the numeric lattice only"}
 	type loc struct{ lat, lon float64 }
 	var locs []loc
@@ -190,6 +190,40 @@ func runC15(r *rt.Run) {
 		}
 		w.Outcome("destinations")
 	})
+	// travel that ends on, just short of and just beyond a pole (the
+	// latitude formula's singular place), from starts up to a hemisphere away
+	{
+		w := r.Worker()
+		plats := []float64{89.9, 89.5, 89.2, 88.75, 87, 80, 60, 33, 0}
+		plons := []float64{30, -47.3, 101.7, 0, 180}
+		deltas := []float64{-10, -1, -0.5, -0.27, -0.2, -0.1, -0.05, -0.01, 0, 0.01, 0.05, 0.1, 0.2, 0.27, 0.5, 1, 10}
+		pb := []float64{0, 1e-6, 359.999999, 1e-3}
+		if th {
+			plats = append(plats, 89.99, 89.7, 89, 88, 85, 75, 45, 10, -30)
+			deltas = append(deltas, -100, -5, -2, -0.3, -0.25, -0.15, 0.15, 0.25, 0.3, 2, 5, 100)
+		}
+		r.Bounds["pole_approach"] = map[string]any{"start_latitudes(+-)": plats, "start_longitudes": plons, "metres_short_of_or_beyond_the_pole": deltas, "bearing_offsets_from_the_meridian": pb}
+		for _, pl := range plats {
+			for _, sgn := range []float64{1, -1} {
+				for _, lo := range plons {
+					for _, dl := range deltas {
+						for _, bo := range pb {
+							lat := sgn * pl
+							D := (90 - pl) * math.Pi / 180 * sphere.R // to the pole on this side
+							brg := bo
+							if sgn < 0 {
+								brg = math.Mod(180+bo, 360)
+							}
+							w.Trans++
+							w.Nontriv++
+							geoRun(w, "destination", lat, lo, D+dl, brg)
+						}
+					}
+				}
+			}
+		}
+		w.Flush()
+	}
 	w := r.Worker()
 	sd := append([]float64(nil), dists...)
 	sd = append(sd, piR)
